@@ -602,10 +602,50 @@ func c09Unprivileged(u *vfUnit) {
 	e.do(c09Req{p: vfPkt{Type: rfOpen, Path: "f", Pflags: rfWrite_ | rfTrunc_}, label: "unprivileged/OPEN/write/f"}, "")
 }
 
+// c09MissingWorkDir: a read-only server configured with a working directory that does not exist. Nothing it is asked
+// (reading requests with relative and absolute names, refused modifying ones) makes that directory, or anything else, appear.
+func c09MissingWorkDir(u *vfUnit) {
+	base := filepath.Join(u.TempDir(), "mw")
+	os.MkdirAll(filepath.Join(base, "there"), 0o755)
+	os.WriteFile(filepath.Join(base, "there", "f"), []byte("x"), 0o644)
+	vfFixTimes("", base, time.Unix(1600000000, 0))
+	before := vfSnapshot(base, vfSnapOpts{Mtime: true, DirMtime: true})
+	for _, wd := range []string{filepath.Join(base, "not", "there"), filepath.Join(base, "there", "sub"), filepath.Join(base, "there", "f", "below-a-file")} {
+		rs, err := vfRawConnect(vfSrvCfg{Kind: vfOS, ReadOnly: true, WorkDir: wd}, vfPipeOpts{}, true)
+		if err != nil {
+			u.Inconclusive("connect: %v", err)
+			return
+		}
+		id := uint32(20)
+		for _, p := range []vfPkt{
+			{Type: rfStat, Path: "x"}, {Type: rfLstat, Path: "."}, {Type: rfRealpath, Path: "."}, {Type: rfOpendir, Path: "."}, {Type: rfOpen, Path: "f", Pflags: rfRead_},
+			{Type: rfReadlink, Path: "l"}, {Type: rfStat, Path: filepath.Join(base, "there", "f")}, {Type: rfExtended, Ext: "statvfs@openssh.com", Path: "."},
+			{Type: rfMkdir, Path: "new"}, {Type: rfOpen, Path: "created", Pflags: rfWrite_ | rfCreat_}, {Type: rfRemove, Path: "f"},
+		} {
+			id++
+			p.ID = id
+			resp, err := rs.R.Phase(60*time.Second, p)
+			u.Count("requests", 1)
+			if err != nil || len(resp) != 1 {
+				u.Violation("missing-workdir:no-reply", fmt.Sprintf("working directory %q: %s answered %v (%v)", wd, p, resp, err), nil)
+				break
+			}
+		}
+		if msg := rs.End(60 * time.Second); msg != "" {
+			u.Violation("serve-end", msg, nil)
+		}
+		if d := before.Diff(vfSnapshot(base, vfSnapOpts{Mtime: true, DirMtime: true})); len(d) > 0 {
+			u.Violation("modified:missing-working-directory", fmt.Sprintf("read-only server with the (missing) working directory %q changed the tree: %s", strings.TrimPrefix(wd, base), vfTrim(strings.Join(d, " | "), 600)), nil)
+			break
+		}
+	}
+}
+
 func c09Run(u *vfUnit) {
 	syscallUmask()
 	if u.Index == c09Units(u.Tier)-1 {
 		c09Unprivileged(u)
+		c09MissingWorkDir(u)
 		return
 	}
 	switch {
